@@ -62,7 +62,14 @@ class _RequestHandler:
         self.logger.info("<= [%s]: %s", client_address, data)
         try:
             response = {}
-            request = json.loads(data)
+            try:
+                request = json.loads(data)
+            except (ValueError, RecursionError) as e:
+                # Malformed JSON (JSONDecodeError is a ValueError), nesting too deep or
+                # an integer literal beyond the interpreter's limit
+                self.logger.debug("JSON error: %s", e)
+                response = self.protocol.format_error()
+                return
             self.logger.debug("Delivering request")
             response = self.protocol.handle_request(request)
             self.logger.debug("Got response: %s", response)
